@@ -27,40 +27,37 @@ def len : Tree → Nat | .node t ks => ks.length + (if t.isSome then 1 else 0)
 /-- `not node` -/
 def isEmpty : Tree → Bool | .node t ks => t.isNone && ks.isEmpty
 
-/-- the chain of fresh dicts `setdefault` creates below a missing component -/
-def chain : List String → Sel → Tree
-  | [], s => .node (some s) []
-  | c :: p, s => .node none [(c, chain p s)]
-
-mutual
-  /-- `__setitem__` on the tree: walk/create the reversed path `p`, set `'$'` to `s`. -/
-  def insert : Tree → List String → Sel → Tree
-    | .node _ ks, [], s => .node (some s) ks
-    | .node t ks, c :: p, s => .node t (insertL ks c p s)
-  def insertL : List (String × Tree) → String → List String → Sel → List (String × Tree)
-    | [], c, p, s => [(c, chain p s)]
-    | (c', t) :: rest, c, p, s =>
-        if c' = c then (c', insert t p s) :: rest else (c', t) :: insertL rest c p s
-end
-
-mutual
-  /-- `pop` on the tree: clear `'$'` at the end of the path, then prune every node on the path
-      that became empty (the `zip(reversed(...))` loop). -/
-  def erase : Tree → List String → Tree
-    | .node _ ks, [] => .node none ks
-    | .node t ks, c :: p => .node t (eraseL ks c p)
-  def eraseL : List (String × Tree) → String → List String → List (String × Tree)
-    | [], _, _ => []
-    | (c', t) :: rest, c, p =>
-        if c' = c then
-          let t' := erase t p
-          if t'.isEmpty then rest else (c', t') :: rest
-        else (c', t) :: eraseL rest c p
-end
-
 def child : List (String × Tree) → String → Option Tree
   | [], _ => none
   | (c', t) :: rest, c => if c' = c then some t else child rest c
+
+/-- `node.setdefault(c, {})` followed by an update of that entry: the entry keeps its position
+    in the dict, a new entry goes to the end. -/
+def upsert : List (String × Tree) → String → (Option Tree → Tree) → List (String × Tree)
+  | [], c, f => [(c, f none)]
+  | (c', t) :: rest, c, f =>
+      if c' = c then (c', f (some t)) :: rest else (c', t) :: upsert rest c f
+
+/-- update-or-delete of the entry `c` (used by the pruning loop of `pop`). -/
+def alter : List (String × Tree) → String → (Tree → Option Tree) → List (String × Tree)
+  | [], _, _ => []
+  | (c', t) :: rest, c, f =>
+      if c' = c then (match f t with | some t' => (c', t') :: rest | none => rest)
+      else (c', t) :: alter rest c f
+
+/-- `__setitem__` on the tree: walk the reversed path `p`, creating missing dicts
+    (`setdefault`), and set `'$'` to `s` at its end. -/
+def insert : Tree → List String → Sel → Tree
+  | .node _ ks, [], s => .node (some s) ks
+  | .node t ks, c :: p, s => .node t (upsert ks c (fun sub => insert (sub.getD empty) p s))
+
+/-- `pop` on the tree: clear `'$'` at the end of the path, then drop every node on the path
+    that became empty (the `zip(reversed(...))` loop runs leaf to root). -/
+def erase : Tree → List String → Tree
+  | .node _ ks, [] => .node none ks
+  | .node t ks, c :: p => .node t (alter ks c (fun sub =>
+      let sub' := erase sub p
+      if sub'.isEmpty then none else some sub'))
 
 /-- subtree reached by a reversed path (`for component in reversed(...): node = node[component]`) -/
 def get : Tree → List String → Option Tree
@@ -68,6 +65,9 @@ def get : Tree → List String → Option Tree
   | .node _ ks, c :: p => match child ks c with
       | none => none
       | some t' => get t' p
+
+/-- the `'$'` value at the end of a reversed path -/
+def find (t : Tree) (p : List String) : Option Sel := (get t p).bind term
 
 mutual
   /-- all `'$'` values below a node – what the DFS of `matching_selectors` collects
